@@ -13,11 +13,9 @@ open Dulwich Dulwich.RefsFS
 
 /-! ## 0. The model was written against this code
 
-The methods the model transcribes still have the call/compare skeleton the model was written against: any
-reordering, dropped re-read, changed comparison or changed argument of the swap breaks one of these.  For the
-three places with a proposed repair (the name `add_if_new` re-checks, pruning of loose files by `pack_refs`
-under the ref lock, the number of head reads in `WorkTree.commit`) the repaired skeleton is admitted as well,
-together with the value the generated flag must then have — the model follows the flags (`Variant.coded`). -/
+The methods the model transcribes have the call/compare skeleton the model was written against, and the generated
+ordering flags have the values of the repaired source: any reordering, dropped re-read, changed comparison,
+changed argument of the swap — or the revert of one of the fixes — breaks one of these. -/
 
 theorem skeleton_readers :
     Gen.RefsFS.skel_follow = [
@@ -44,19 +42,11 @@ theorem skeleton_setIfEquals :
   decide
 
 theorem skeleton_addIfNew :
-    ((
-      Gen.RefsFS.skel_addIfNew = [
-        "call:follow", "cmp:contents is not None", "return:False", "call:GitFile", "call:exists",
-        "cmp:name in self.get_packed_refs()", "call:get_packed_refs", "call:abort", "return:False",
-        "call:write", "call:abort", "raise:", "return:True"] ∧
-      Gen.RefsFS.addIfNewChecksName = true) ∨
-     -- after the proposed repair
-     (
-      Gen.RefsFS.skel_addIfNew = [
-        "call:follow", "cmp:contents is not None", "return:False", "call:GitFile", "call:exists",
-        "cmp:realname in self.get_packed_refs()", "call:get_packed_refs", "call:abort", "return:False",
-        "call:write", "call:abort", "raise:", "return:True"] ∧
-      Gen.RefsFS.addIfNewChecksName = false)) := by
+    Gen.RefsFS.skel_addIfNew = [
+      "call:follow", "cmp:contents is not None", "return:False", "call:GitFile", "call:exists",
+      "cmp:realname in self.get_packed_refs()", "call:get_packed_refs", "call:abort", "return:False",
+      "call:write", "call:abort", "raise:", "return:True"] ∧
+    Gen.RefsFS.addIfNewChecksName = false := by
   decide
 
 theorem skeleton_removeIfEquals :
@@ -75,31 +65,18 @@ theorem skeleton_removeIfEquals :
   decide
 
 theorem skeleton_packRefs :
-    ((
-      Gen.RefsFS.skel_addPackedRefs = [
-        "return:", "call:GitFile", "call:copy", "call:get_packed_refs", "cmp:ref == HEADREF",
-        "raise:ValueError('cannot pack HEAD')", "cmp:target is not None", "call:pop", "call:write_packed_refs",
-        "call:remove", "call:_invalidate_packed_refs_cache"] ∧
-      Gen.RefsFS.skel_packRefs = [
-        "call:allkeys", "cmp:ref == HEADREF", "assign:sha = self[ref]", "getitem:self[ref]",
-        "call:add_packed_refs(refs_to_pack)"] ∧
-      Gen.RefsFS.skel_pruneLooseRef = [
-] ∧
-      Gen.RefsFS.packPrunesUnderRefLock = false) ∨
-     -- after the proposed repair
-     (
-      Gen.RefsFS.skel_addPackedRefs = [
-        "return:", "call:GitFile", "call:copy", "call:get_packed_refs", "cmp:ref == HEADREF",
-        "raise:ValueError('cannot pack HEAD')", "cmp:target is not None", "call:pop", "call:write_packed_refs",
-        "cmp:target is not None", "call:_prune_loose_ref", "call:remove", "call:_invalidate_packed_refs_cache"] ∧
-      Gen.RefsFS.skel_packRefs = [
-        "call:allkeys", "cmp:ref == HEADREF", "assign:sha = self[ref]", "getitem:self[ref]",
-        "call:add_packed_refs(refs_to_pack, prune_only_if_unchanged=True)"] ∧
-      Gen.RefsFS.skel_pruneLooseRef = [
-        "call:GitFile", "return:", "call:read_loose_ref", "cmp:self.read_loose_ref(name) == expected",
-        "call:remove", "call:abort"] ∧
-      Gen.RefsFS.packPrunesUnderRefLock = true)) ∧
-    Gen.RefsFS.packRemovesLooseBeforeReplace = false := by
+    Gen.RefsFS.skel_addPackedRefs = [
+      "return:", "call:GitFile", "call:copy", "call:get_packed_refs", "cmp:ref == HEADREF",
+      "raise:ValueError('cannot pack HEAD')", "cmp:target is not None", "call:pop", "call:write_packed_refs",
+      "cmp:target is not None", "call:_prune_loose_ref", "call:remove", "call:_invalidate_packed_refs_cache"] ∧
+    Gen.RefsFS.skel_packRefs = [
+      "call:allkeys", "cmp:ref == HEADREF", "assign:sha = self[ref]", "getitem:self[ref]",
+      "call:add_packed_refs(refs_to_pack, prune_only_if_unchanged=True)"] ∧
+    Gen.RefsFS.skel_pruneLooseRef = [
+      "call:GitFile", "return:", "call:read_loose_ref", "cmp:self.read_loose_ref(name) == expected",
+      "call:remove", "call:abort"] ∧
+    Gen.RefsFS.packRemovesLooseBeforeReplace = false ∧
+    Gen.RefsFS.packPrunesUnderRefLock = true := by
   decide
 
 theorem skeleton_setSymbolicRef :
@@ -116,30 +93,18 @@ theorem skeleton_lockFile :
   decide
 
 theorem skeleton_commit :
-    ((
-      Gen.RefsFS.skel_worktreeCommit = [
-        "assign:old_head = self._repo.refs[ref]", "getitem:self._repo.refs[ref]",
-        "assign:old_head = self._repo.refs[ref]", "getitem:self._repo.refs[ref]",
-        "call:set_if_equals(ref, old_head, c.id)", "call:add_if_new(ref, c.id)"] ∧
-      Gen.RefsFS.worktreeCommitHeadReads = 2) ∨
-     -- after the proposed repair
-     (
-      Gen.RefsFS.skel_worktreeCommit = [
-        "assign:old_head = self._repo.refs[ref]", "getitem:self._repo.refs[ref]",
-        "call:set_if_equals(ref, old_head, c.id)", "call:add_if_new(ref, c.id)"] ∧
-      Gen.RefsFS.worktreeCommitHeadReads = 1)) ∧
+    Gen.RefsFS.skel_worktreeCommit = [
+      "assign:old_head = self._repo.refs[ref]", "getitem:self._repo.refs[ref]",
+      "call:set_if_equals(ref, old_head, c.id)", "call:add_if_new(ref, c.id)"] ∧
+    Gen.RefsFS.worktreeCommitHeadReads = 1 ∧
     Gen.RefsFS.skel_memoryDoCommit = [
       "assign:old_head = self.refs[ref]", "getitem:self.refs[ref]", "call:set_if_equals(ref, old_head, c.id)",
       "call:add_if_new(ref, c.id)"] ∧
+    Gen.RefsFS.memoryCommitHeadReads = 1 ∧
     Gen.RefsFS.skel_dictSetIfEquals = [
       "cmp:old_ref is not None", "cmp:self._refs.get(name, ZERO_SHA) != old_ref", "return:False", "return:True"] ∧
     Gen.RefsFS.skel_dictAddIfNew = [
       "cmp:name in self._refs", "return:False", "return:True"] := by
-  decide
-
-/-- the orders the flags may take that the model knows how to follow -/
-theorem coded_variant_supported :
-    Variant.coded.commitReads = 1 ∨ Variant.coded.commitReads = 2 := by
   decide
 
 /-! ## 1. Conditional updates over loose refs are linearizable
@@ -304,27 +269,25 @@ example :
     simp only [List.mem_cons, List.mem_nil_iff, or_false] at hop
     rcases hop with rfl | rfl | rfl | rfl <;> simp [LooseOp]
 
-/-! ## 2. The two reader windows closed by fix bb5afda — regression witnesses on the old orders
+/-! ## 2. The code as it is now: `Variant.coded`
 
-`Variant.old` is the order of steps before that fix (loose files unlinked BEFORE the new packed-refs is renamed
-in; `remove_if_equals` unlinks the loose file BEFORE dropping the packed entry); `Variant.current` is the order in
-the source now (what `Variant.coded` evaluates to, see `coded_variant_has_the_repaired_orders`).  The witnesses
-are stated for the literals so they stay facts about those orders whatever the source becomes.  Every witness
-schedule is in corpus/C08 and is replayed on the real `DiskRefsContainer` under the system-call scheduler on every
-run (the four of this section must HOLD on the real code now). -/
+`Variant.coded` is assembled from the flags the translator regenerates from the source on every run.  The source
+now has every repaired order (fixes bb5afda, 7e0c6ae, 3fe26f6, 59021a9): the theorems of this section are stated
+for `Variant.coded`, so reverting one of the fixes flips a flag and breaks them. -/
 
+/-- the generated flags are exactly the repaired orders -/
+theorem coded_variant_is_repaired : Variant.coded = Variant.repaired := by
+  decide
+
+/-- order of steps before fix bb5afda (loose files unlinked BEFORE the new packed-refs is renamed in;
+`remove_if_equals` unlinks the loose file BEFORE dropping the packed entry; two reads in `WorkTree.commit`;
+`add_if_new` re-checks `name`) -/
 def Variant.old : Variant :=
   { rmLooseFirst := true, packRemovesLooseFirst := true, addChecksName := true, commitReads := 2 }
 
-def Variant.current : Variant :=
+/-- order of steps after bb5afda and before 7e0c6ae / 3fe26f6 / 59021a9 -/
+def Variant.bb5afda : Variant :=
   { rmLooseFirst := false, packRemovesLooseFirst := false, addChecksName := true, commitReads := 2 }
-
-/-- The generated flags say that the source has the repaired orders of bb5afda (a revert breaks this), and the
-remaining flags have a value the model knows. -/
-theorem coded_variant_has_the_repaired_orders :
-    Variant.coded.rmLooseFirst = false ∧ Variant.coded.packRemovesLooseFirst = false ∧
-    (Variant.coded.commitReads = 1 ∨ Variant.coded.commitReads = 2) := by
-  decide
 
 def env0 : Env := { heads := [1, 2], order := [2, 1, 0] }
 
@@ -347,53 +310,27 @@ def ReaderDuringPackStatement (vr : Variant) : Prop :=
     finalOuts vr (fsLoose 1) [[.pack], [.read 1]] sched 1 = [] ∨
     finalOuts vr (fsLoose 1) [[.pack], [.read 1]] sched 1 = [.val (some (.sha 1))]
 
-/-- old order: between `os.remove(loose)` and the rename of the new packed-refs the reader finds the ref MISSING -/
-theorem reader_during_pack_refs_sees_missing_counterexample : ¬ ReaderDuringPackStatement Variant.old := by
-  intro h
-  have := h [0, 0, 0, 0, 0, 0, 0, 0, 1, 1, 1]
-  revert this
-  decide
-
 /-- the same for a ref that was updated after it had been packed: the reader must see the current value 2. -/
 def ReaderDuringPackOlderStatement (vr : Variant) : Prop :=
   ∀ sched : List Actor,
     finalOuts vr (fsBoth 2 1) [[.pack], [.read 1]] sched 1 = [] ∨
     finalOuts vr (fsBoth 2 1) [[.pack], [.read 1]] sched 1 = [.val (some (.sha 2))]
 
-/-- old order: in the same window the reader sees the OLDER packed value 1 -/
-theorem reader_during_pack_refs_sees_older_counterexample :
-    ¬ ReaderDuringPackOlderStatement Variant.old := by
-  intro h
-  have := h [0, 0, 0, 0, 0, 0, 0, 0, 1, 1, 1]
-  revert this
-  decide
-
-/-- current order: the reader placed at every point of the packing run (after 0 … 12 steps of `pack_refs`) sees
-the value, for the never-packed and for the packed-then-updated ref -/
-example :
-    ((List.range 13).all fun k =>
-      finalOuts Variant.current (fsLoose 1) [[.pack], [.read 1]] (List.replicate k 0 ++ [1, 1, 1, 1]) 1
-        == [.val (some (.sha 1))]) = true ∧
-    ((List.range 13).all fun k =>
-      finalOuts Variant.current (fsBoth 2 1) [[.pack], [.read 1]] (List.replicate k 0 ++ [1, 1, 1, 1]) 1
-        == [.val (some (.sha 2))]) = true := by
-  decide
-
-/-- **current order, every schedule of at most 24 steps** (the two programs have 14 steps together, so this is
+/-- **as coded, every schedule of at most 28 steps** (the two programs have at most 18 steps together, so this is
 every interleaving): a reader concurrent with `pack_refs` sees the value of the ref — for the never-packed ref
 and for the ref that was updated after it had been packed.  (Exhaustive evaluation of the model: `reachAll`
 enumerates every configuration a schedule of that length can reach.) -/
-theorem reader_during_pack_refs_ok_bounded (sched : List Actor) (hlen : sched.length ≤ 24) :
-    (finalOuts Variant.current (fsLoose 1) [[.pack], [.read 1]] sched 1 = [] ∨
-     finalOuts Variant.current (fsLoose 1) [[.pack], [.read 1]] sched 1 = [.val (some (.sha 1))]) ∧
-    (finalOuts Variant.current (fsBoth 2 1) [[.pack], [.read 1]] sched 1 = [] ∨
-     finalOuts Variant.current (fsBoth 2 1) [[.pack], [.read 1]] sched 1 = [.val (some (.sha 2))]) := by
-  have h1 : ((reachAll env0 Variant.current 24 (Config.init env0 Variant.current (fsLoose 1) [[.pack], [.read 1]])).all
+theorem reader_during_pack_refs_ok_bounded (sched : List Actor) (hlen : sched.length ≤ 28) :
+    (finalOuts Variant.coded (fsLoose 1) [[.pack], [.read 1]] sched 1 = [] ∨
+     finalOuts Variant.coded (fsLoose 1) [[.pack], [.read 1]] sched 1 = [.val (some (.sha 1))]) ∧
+    (finalOuts Variant.coded (fsBoth 2 1) [[.pack], [.read 1]] sched 1 = [] ∨
+     finalOuts Variant.coded (fsBoth 2 1) [[.pack], [.read 1]] sched 1 = [.val (some (.sha 2))]) := by
+  have h1 : ((reachAll env0 Variant.coded 28 (Config.init env0 Variant.coded (fsLoose 1) [[.pack], [.read 1]])).all
       fun cfg => cfg.outs 1 == [] || cfg.outs 1 == [.val (some (.sha 1))]) = true := by decide +kernel
-  have h2 : ((reachAll env0 Variant.current 24 (Config.init env0 Variant.current (fsBoth 2 1) [[.pack], [.read 1]])).all
+  have h2 : ((reachAll env0 Variant.coded 28 (Config.init env0 Variant.coded (fsBoth 2 1) [[.pack], [.read 1]])).all
       fun cfg => cfg.outs 1 == [] || cfg.outs 1 == [.val (some (.sha 2))]) = true := by decide +kernel
-  have m1 := List.all_eq_true.mp h1 _ (runSched_mem_reachAll env0 Variant.current sched 24 _ hlen)
-  have m2 := List.all_eq_true.mp h2 _ (runSched_mem_reachAll env0 Variant.current sched 24 _ hlen)
+  have m1 := List.all_eq_true.mp h1 _ (runSched_mem_reachAll env0 Variant.coded sched 28 _ hlen)
+  have m2 := List.all_eq_true.mp h2 _ (runSched_mem_reachAll env0 Variant.coded sched 28 _ hlen)
   simp only [Bool.or_eq_true, beq_iff_eq] at m1 m2
   exact ⟨m1, m2⟩
 
@@ -403,33 +340,17 @@ def ReaderDuringRemoveStatement (vr : Variant) : Prop :=
     let o := finalOuts vr (fsBoth 2 1) [[.rm 1 (some (some (.sha 2)))], [.read 1]] sched 1
     o = [] ∨ o = [.val (some (.sha 2))] ∨ o = [.val none]
 
-/-- old order: `remove_if_equals` on a loose+packed ref removes the loose file first: the reader sees the older
-packed value 1 come back -/
-theorem remove_if_equals_resurrects_packed_counterexample : ¬ ReaderDuringRemoveStatement Variant.old := by
-  intro h
-  have := h [0, 0, 0, 0, 0, 1, 1, 1]
-  revert this
-  decide
-
-/-- current order: the reader placed at every point of the delete sees 2 or nothing -/
-example :
-    ((List.range 13).all fun k =>
-      let o := finalOuts Variant.current (fsBoth 2 1) [[.rm 1 (some (some (.sha 2)))], [.read 1]]
-        (List.replicate k 0 ++ [1, 1, 1, 1]) 1
-      o == [.val (some (.sha 2))] || o == [.val none]) = true := by
-  decide
-
-/-- **current order, every schedule of at most 24 steps** (= every interleaving of the two programs): a reader
+/-- **as coded, every schedule of at most 28 steps** (= every interleaving of the two programs): a reader
 concurrent with the deletion of a loose+packed ref sees the current value 2 or sees the ref gone, never the
 older packed value 1. -/
-theorem reader_during_remove_ok_bounded (sched : List Actor) (hlen : sched.length ≤ 24) :
-    let o := finalOuts Variant.current (fsBoth 2 1) [[.rm 1 (some (some (.sha 2)))], [.read 1]] sched 1
+theorem reader_during_remove_ok_bounded (sched : List Actor) (hlen : sched.length ≤ 28) :
+    let o := finalOuts Variant.coded (fsBoth 2 1) [[.rm 1 (some (some (.sha 2)))], [.read 1]] sched 1
     o = [] ∨ o = [.val (some (.sha 2))] ∨ o = [.val none] := by
-  have h1 : ((reachAll env0 Variant.current 24
-      (Config.init env0 Variant.current (fsBoth 2 1) [[.rm 1 (some (some (.sha 2)))], [.read 1]])).all
+  have h1 : ((reachAll env0 Variant.coded 28
+      (Config.init env0 Variant.coded (fsBoth 2 1) [[.rm 1 (some (some (.sha 2)))], [.read 1]])).all
       fun cfg => cfg.outs 1 == [] || (cfg.outs 1 == [.val (some (.sha 2))] || cfg.outs 1 == [.val none])) = true := by
     decide +kernel
-  have m1 := List.all_eq_true.mp h1 _ (runSched_mem_reachAll env0 Variant.current sched 24 _ hlen)
+  have m1 := List.all_eq_true.mp h1 _ (runSched_mem_reachAll env0 Variant.coded sched 28 _ hlen)
   simp only [Bool.or_eq_true, beq_iff_eq] at m1
   exact m1
 
@@ -440,23 +361,16 @@ def FailedRemoveHasNoEffectStatement (vr : Variant) : Prop :=
     finalOuts vr fs [[.rm 1 (some (some (.sha 2)))], [.rm 2 none]] sched 0 = [.exc .locked] →
     finalVal vr fs [[.rm 1 (some (some (.sha 2)))], [.rm 2 none]] sched 1 = some (.sha 2)
 
-/-- old order: `_remove_packed_ref` raises FileLocked (packed-refs.lock busy) after the loose file is gone: the
-failed delete has changed the ref to its older packed value -/
-theorem remove_if_equals_half_deleted_counterexample : ¬ FailedRemoveHasNoEffectStatement Variant.old := by
-  intro h
-  have := h [1, 1, 1, 1, 1, 0, 0, 0, 0, 0, 0, 0, 0, 1, 1, 1, 1]
-  revert this
+/-- as coded: on the schedule that left the ref half-deleted before (packed-refs.lock busy in the middle of the
+delete), the delete fails before anything has changed, and the rewrite of packed-refs by the other actor carries
+the untouched third ref along -/
+example :
+    let fs := FS.init (fun r => if r = 1 then some (.sha 2) else none) (some [(1, 1), (2, 3), (3, 4)])
+    let progs : List (List Op) := [[.rm 1 (some (some (.sha 2)))], [.rm 2 none]]
+    let sched := [1, 1, 1, 1, 1, 0, 0, 0, 0, 0, 0, 0, 0, 1, 1, 1, 1]
+    finalOuts Variant.coded fs progs sched 0 = [.exc .locked] ∧ finalVal Variant.coded fs progs sched 1 = some (.sha 2) ∧
+    finalVal Variant.coded fs progs sched 2 = none ∧ finalVal Variant.coded fs progs sched 3 = some (.sha 4) := by
   decide
-
-example : -- current order: the same schedule fails before anything has changed
-    let fs := FS.init (fun r => if r = 1 then some (.sha 2) else none) (some [(1, 1), (2, 3)])
-    finalOuts Variant.current fs [[.rm 1 (some (some (.sha 2)))], [.rm 2 none]]
-        [1, 1, 1, 1, 1, 0, 0, 0, 0, 0, 0, 0, 0, 1, 1, 1, 1] 0 = [.exc .locked] ∧
-    finalVal Variant.current fs [[.rm 1 (some (some (.sha 2)))], [.rm 2 none]]
-        [1, 1, 1, 1, 1, 0, 0, 0, 0, 0, 0, 0, 0, 1, 1, 1, 1] 1 = some (.sha 2) := by
-  decide
-
-/-! ## 3. What is still false for the code as it is now (negation witnesses on `Variant.current`) -/
 
 /-- "A conditional update that returned True is not lost: with no other writer, its value is the final value." -/
 def UpdateSurvivesPackStatement (vr : Variant) : Prop :=
@@ -465,30 +379,33 @@ def UpdateSurvivesPackStatement (vr : Variant) : Prop :=
     finalOuts vr (fsLoose 1) [[.cas 1 (some (some (.sha 1))) (.sha 5)], [.pack]] sched 1 = [.unit] →
     finalVal vr (fsLoose 1) [[.cas 1 (some (some (.sha 1))) (.sha 5)], [.pack]] sched 1 = some (.sha 5)
 
-/-- **Lost update.**  `pack_refs` reads the value without the ref lock and `add_packed_refs` unlinks the loose
-file unconditionally — now after the rename of packed-refs, still without the ref's own lock: the update 1 → 5
-lands between the rename and the unlink, returns True, and the ref ends at the stale packed value 1. -/
-theorem pack_refs_overwrites_update_counterexample : ¬ UpdateSurvivesPackStatement Variant.current := by
-  intro h
-  have := h [1, 1, 1, 1, 1, 1, 1, 1, 1, 0, 0, 0, 0, 0, 0, 0, 0, 0, 0, 1, 1]
-  revert this
-  decide
-
-/-- it was false with the old order too (the update lands between the read and the unlink) -/
-theorem pack_refs_overwrites_update_old_counterexample : ¬ UpdateSurvivesPackStatement Variant.old := by
-  intro h
-  have := h [1, 1, 1, 1, 1, 0, 0, 0, 0, 0, 0, 0, 0, 0, 1, 1, 1, 1, 1]
-  revert this
-  decide
-
-/-- with the proposed repair (unlink under the ref's own lock, only if the loose file still holds the packed
-value) both schedules keep the update: the loose 5 stays and overrides the packed 1 -/
+/-- as coded (59021a9: loose file pruned under the ref's own lock, only if unchanged): on the two schedules that
+lost the update before (update between the read and the unlink; update between the rename and the unlink) the
+loose 5 stays and overrides the packed 1 -/
 example :
-    finalVal Variant.repaired (fsLoose 1) [[.cas 1 (some (some (.sha 1))) (.sha 5)], [.pack]]
+    finalVal Variant.coded (fsLoose 1) [[.cas 1 (some (some (.sha 1))) (.sha 5)], [.pack]]
       [1, 1, 1, 1, 1, 1, 1, 1, 1, 0, 0, 0, 0, 0, 0, 0, 0, 0, 0, 1, 1, 1, 1, 1] 1 = some (.sha 5) ∧
-    finalVal Variant.repaired (fsLoose 1) [[.cas 1 (some (some (.sha 1))) (.sha 5)], [.pack]]
+    finalVal Variant.coded (fsLoose 1) [[.cas 1 (some (some (.sha 1))) (.sha 5)], [.pack]]
       [1, 1, 1, 1, 1, 0, 0, 0, 0, 0, 0, 0, 0, 0, 1, 1, 1, 1, 1, 1, 1, 1, 1, 1] 1 = some (.sha 5) := by
   decide
+
+/-- "add_if_new returns True only if the ref did not exist." -/
+def AddIfNewStatement (vr : Variant) : Prop :=
+  ∀ sched : List Actor,
+    let fs := FS.init (fun r => if r = 0 then some (.sym 1) else none) none
+    let progs : List (List Op) := [[.add 0 (.sha 5)], [.cas 1 none (.sha 6), .pack]]
+    finalOuts vr fs progs sched 0 = [.bool true] → finalOuts vr fs progs sched 1 ≠ [.bool true, .unit] ∨
+      finalVal vr fs progs sched 1 = some (.sha 6)
+
+/-- as coded (3fe26f6: the resolved name is re-checked): on the schedule that overwrote the branch before,
+add_if_new now returns False -/
+example :
+    let fs := FS.init (fun r => if r = 0 then some (.sym 1) else none) none
+    finalOuts Variant.coded fs [[.add 0 (.sha 5)], [.cas 1 none (.sha 6), .pack]]
+      ([0, 0, 0, 0] ++ List.replicate 24 1 ++ List.replicate 8 0) 0 = [.bool false] := by
+  decide
+
+/-! ## 3. What is still false for the code as it is now (negation witnesses on `Variant.coded`) -/
 
 /-- "A ref whose deletion returned True stays deleted when nobody creates it again." -/
 def DeleteSurvivesPackStatement (vr : Variant) : Prop :=
@@ -497,20 +414,15 @@ def DeleteSurvivesPackStatement (vr : Variant) : Prop :=
     finalOuts vr (fsLoose 1) [[.rm 1 (some (some (.sha 1)))], [.pack]] sched 1 = [.unit] →
     finalVal vr (fsLoose 1) [[.rm 1 (some (some (.sha 1)))], [.pack]] sched 1 = none
 
-/-- **A deleted ref comes back.**  `pack_refs` read the value 1, the ref is deleted, `pack_refs` writes the stale
-value into packed-refs.  Not repaired by the proposed pruning patch either (second clause): it needs the delete and
-the packing to exclude each other (git: both hold packed-refs.lock for their whole critical section). -/
-theorem pack_refs_resurrects_deleted_ref_counterexample :
-    ¬ DeleteSurvivesPackStatement Variant.current ∧ ¬ DeleteSurvivesPackStatement Variant.repaired := by
-  constructor
-  · intro h
-    have := h [1, 1, 1, 1, 1, 0, 0, 0, 0, 0, 0, 0, 0, 0, 1, 1, 1, 1, 1, 1]
-    revert this
-    decide
-  · intro h
-    have := h [1, 1, 1, 1, 1, 0, 0, 0, 0, 0, 0, 0, 0, 0, 1, 1, 1, 1, 1, 1, 1, 1]
-    revert this
-    decide
+/-- **A deleted ref comes back.**  `pack_refs` read the value 1 (without the ref lock), the ref is deleted,
+`pack_refs` writes the stale value into packed-refs; finding the loose file gone (or the ref lock busy) it merely
+skips the pruning.  It needs the delete and the packing to exclude each other (git: both hold packed-refs.lock
+for their whole critical section). -/
+theorem pack_refs_resurrects_deleted_ref_counterexample : ¬ DeleteSurvivesPackStatement Variant.coded := by
+  intro h
+  have := h [1, 1, 1, 1, 1, 0, 0, 0, 0, 0, 0, 0, 0, 0, 1, 1, 1, 1, 1, 1, 1, 1]
+  revert this
+  decide
 
 /-- "An update through HEAD, a re-pointing of HEAD and a reader behave as if executed in some order": if the
 reader (started after the re-pointing finished) still saw the old value, the update was not yet done, so it came
@@ -525,36 +437,88 @@ def SymrefUpdateStatement (vr : Variant) : Prop :=
     finalVal vr fs progs sched 1 = some (.sha 1)
 
 /-- the symref is followed outside any lock: the update lands on the old target after HEAD was re-pointed -/
-theorem symref_retarget_counterexample : ¬ SymrefUpdateStatement Variant.current := by
+theorem symref_retarget_counterexample : ¬ SymrefUpdateStatement Variant.coded := by
   intro h
   have := h [0, 0, 0, 0, 0, 0, 0, 0, 1, 1, 1, 1, 1, 1, 2, 2, 0]
   revert this
   decide
 
-/-- "add_if_new returns True only if the ref did not exist." -/
-def AddIfNewStatement (vr : Variant) : Prop :=
+/-- "A create that returned True is not lost when the only other actor deletes the ref BEFORE it" — here: the
+other actor is `add_packed_refs({x: None})`, which has dropped the packed entry before the create starts. -/
+def CreateSurvivesUnpackStatement (vr : Variant) : Prop :=
   ∀ sched : List Actor,
-    let fs := FS.init (fun r => if r = 0 then some (.sym 1) else none) none
-    let progs : List (List Op) := [[.add 0 (.sha 5)], [.cas 1 none (.sha 6), .pack]]
-    finalOuts vr fs progs sched 0 = [.bool true] → finalOuts vr fs progs sched 1 ≠ [.bool true, .unit] ∨
-      finalVal vr fs progs sched 1 = some (.sha 6)
+    let fs := FS.init (fun r => if r = 0 then some (.sym 1) else none) (some [(1, 1)])
+    let progs : List (List Op) := [[.add 1 (.sha 6)], [.unpack 1]]
+    finalOuts vr fs progs sched 0 = [.bool true] → finalVal vr fs progs sched 1 = some (.sha 6)
 
-/-- `add_if_new(HEAD)` re-checks packed-refs for `HEAD` instead of the resolved name: the branch was created
-(6) and packed in between, add_if_new overwrites it with 5 and reports True. -/
-theorem add_if_new_symref_packed_counterexample : ¬ AddIfNewStatement Variant.current := by
+/-- `add_packed_refs({x: None})` drops the packed entry and unlinks the loose file in two steps, without the
+ref lock: the create that succeeds in between is destroyed -/
+theorem add_packed_refs_none_loses_create_counterexample : ¬ CreateSurvivesUnpackStatement Variant.coded := by
+  intro h
+  have := h [1, 1, 1, 1, 1, 0, 0, 0, 0, 0, 0, 0, 0, 1, 1]
+  revert this
+  decide
+
+/-! ## 4. Regression witnesses: the orders before the fixes (literal variants; the same schedules are in
+corpus/C08 and must HOLD on the real code now) -/
+
+/-- before bb5afda: between `os.remove(loose)` and the rename of the new packed-refs the reader finds the ref
+MISSING -/
+theorem reader_during_pack_refs_sees_missing_counterexample : ¬ ReaderDuringPackStatement Variant.old := by
+  intro h
+  have := h [0, 0, 0, 0, 0, 0, 0, 0, 1, 1, 1]
+  revert this
+  decide
+
+/-- before bb5afda: in the same window the reader sees the OLDER packed value 1 -/
+theorem reader_during_pack_refs_sees_older_counterexample :
+    ¬ ReaderDuringPackOlderStatement Variant.old := by
+  intro h
+  have := h [0, 0, 0, 0, 0, 0, 0, 0, 1, 1, 1]
+  revert this
+  decide
+
+/-- before bb5afda: `remove_if_equals` on a loose+packed ref removes the loose file first: the reader sees the
+older packed value 1 come back -/
+theorem remove_if_equals_resurrects_packed_counterexample : ¬ ReaderDuringRemoveStatement Variant.old := by
+  intro h
+  have := h [0, 0, 0, 0, 0, 1, 1, 1]
+  revert this
+  decide
+
+/-- before bb5afda: `_remove_packed_ref` raises FileLocked (packed-refs.lock busy) after the loose file is gone:
+the failed delete has changed the ref to its older packed value -/
+theorem remove_if_equals_half_deleted_counterexample : ¬ FailedRemoveHasNoEffectStatement Variant.old := by
+  intro h
+  have := h [1, 1, 1, 1, 1, 0, 0, 0, 0, 0, 0, 0, 0, 1, 1, 1, 1]
+  revert this
+  decide
+
+/-- before 59021a9 (after bb5afda): the loose file is unlinked unconditionally after the rename of packed-refs,
+without the ref's own lock — the update 1 → 5 lands between the rename and the unlink, returns True, and the ref
+ends at the stale packed value 1 -/
+theorem pack_refs_overwrites_update_counterexample : ¬ UpdateSurvivesPackStatement Variant.bb5afda := by
+  intro h
+  have := h [1, 1, 1, 1, 1, 1, 1, 1, 1, 0, 0, 0, 0, 0, 0, 0, 0, 0, 0, 1, 1]
+  revert this
+  decide
+
+/-- before bb5afda too (the update lands between the read and the unlink) -/
+theorem pack_refs_overwrites_update_old_counterexample : ¬ UpdateSurvivesPackStatement Variant.old := by
+  intro h
+  have := h [1, 1, 1, 1, 1, 0, 0, 0, 0, 0, 0, 0, 0, 0, 1, 1, 1, 1, 1]
+  revert this
+  decide
+
+/-- before 3fe26f6: `add_if_new(HEAD)` re-checks packed-refs for `HEAD` instead of the resolved name: the branch
+was created (6) and packed in between, add_if_new overwrites it with 5 and reports True -/
+theorem add_if_new_symref_packed_counterexample : ¬ AddIfNewStatement Variant.bb5afda := by
   intro h
   have := h ([0, 0, 0, 0] ++ List.replicate 21 1 ++ List.replicate 8 0)
   revert this
   decide
 
-/-- with the resolved name re-checked the same schedule makes add_if_new return False -/
-example :
-    let fs := FS.init (fun r => if r = 0 then some (.sym 1) else none) none
-    finalOuts Variant.repaired fs [[.add 0 (.sha 5)], [.cas 1 none (.sha 6), .pack]]
-      ([0, 0, 0, 0] ++ List.replicate 24 1 ++ List.replicate 8 0) 0 = [.bool false] := by
-  decide
-
-/-! ## 4. Concurrent commits -/
+/-! ## 5. Concurrent commits -/
 
 open Proto
 
@@ -599,6 +563,20 @@ example :
     s.actors.map (·.pc) = [.done false (some 1), .done true (some 1), .done false (some 1)] := by
   decide
 
+/-- **commit_not_lost for the protocols the source has NOW**: the number of head reads of `WorkTree.commit` and
+of `MemoryRepo.do_commit` is regenerated from the source (both 1 since fix 7e0c6ae); for those protocols, every
+schedule, any number of actors: the successful commits form a first-parent chain from the final head.
+Re-introducing the second read flips the generated constant and breaks this theorem. -/
+theorem commit_not_lost_as_coded (init : Option Sha) (cids : List Sha) (sched : List Nat) :
+    ChainOK init (prun Gen.RefsFS.worktreeCommitHeadReads (PState.init init cids) sched).log
+      (prun Gen.RefsFS.worktreeCommitHeadReads (PState.init init cids) sched).reg ∧
+    ChainOK init (prun Gen.RefsFS.memoryCommitHeadReads (PState.init init cids) sched).log
+      (prun Gen.RefsFS.memoryCommitHeadReads (PState.init init cids) sched).reg := by
+  have h1 : Gen.RefsFS.worktreeCommitHeadReads = 1 := by decide
+  have h2 : Gen.RefsFS.memoryCommitHeadReads = 1 := by decide
+  rw [h1, h2]
+  exact ⟨(commit_not_lost init cids sched).1, (commit_not_lost init cids sched).1⟩
+
 /-- the statement of `commit_not_lost` for the protocol with `reads` reads -/
 def CommitNotLostStatement (reads : Nat) : Prop :=
   ∀ (init : Option Sha) (cids : List Sha) (sched : List Nat),
@@ -614,23 +592,22 @@ theorem lost_commit_counterexample : ¬ CommitNotLostStatement 2 := by
   revert this
   decide
 
-/-- the same on the full file-system model, with the programs of `WorkTree.commit`, `set_if_equals` … as
-transcribed: both commits report success with parent 1, the branch ends at 100, 101 is lost. -/
+/-- the same on the full file-system model with the two-read order of `WorkTree.commit` before fix 7e0c6ae: both commits report success with parent 1, the branch ends at 100, 101 is lost. -/
 theorem lost_commit_disk_counterexample :
     let progs : List (List Op) := [[.commit 0 100], [.commit 0 101]]
     let sched := [0, 0, 0, 1, 1, 1, 1, 1, 1, 1, 1, 1, 1, 1, 1, 1, 0, 0, 0, 0, 0, 0, 0, 0, 0, 0, 0]
-    finalOuts Variant.current (fsLoose 1) progs sched 0 = [.committed 100 (some 1)] ∧
-    finalOuts Variant.current (fsLoose 1) progs sched 1 = [.committed 101 (some 1)] ∧
-    finalVal Variant.current (fsLoose 1) progs sched 1 = some (.sha 100) := by
+    finalOuts Variant.bb5afda (fsLoose 1) progs sched 0 = [.committed 100 (some 1)] ∧
+    finalOuts Variant.bb5afda (fsLoose 1) progs sched 1 = [.committed 101 (some 1)] ∧
+    finalVal Variant.bb5afda (fsLoose 1) progs sched 1 = some (.sha 100) := by
   decide
 
-/-- with a single read the same schedule makes actor 0 the loser (CommitError), nothing is lost -/
+/-- as coded now (single read) the same schedule makes actor 0 the loser (CommitError), nothing is lost -/
 example :
     let progs : List (List Op) := [[.commit 0 100], [.commit 0 101]]
     let sched := [0, 0, 0, 1, 1, 1, 1, 1, 1, 1, 1, 1, 1, 1, 1, 1, 0, 0, 0, 0, 0, 0, 0, 0, 0, 0, 0]
-    finalOuts Variant.repaired (fsLoose 1) progs sched 0 = [.exc .commit] ∧
-    finalOuts Variant.repaired (fsLoose 1) progs sched 1 = [.committed 101 (some 1)] ∧
-    finalVal Variant.repaired (fsLoose 1) progs sched 1 = some (.sha 101) := by
+    finalOuts Variant.coded (fsLoose 1) progs sched 0 = [.exc .commit] ∧
+    finalOuts Variant.coded (fsLoose 1) progs sched 1 = [.committed 101 (some 1)] ∧
+    finalVal Variant.coded (fsLoose 1) progs sched 1 = some (.sha 101) := by
   decide
 
 end Dulwich.Props.C08
